@@ -52,12 +52,12 @@ func vCapture(lab *vLab, from string, payloads [][]byte) []vDatagram {
 }
 
 type c06UnitCase struct {
-	Kind     string   `json:"kind"`
-	W        int      `json:"w"`
-	MaxSeq   uint64   `json:"maxseq"`
-	Xs       []uint64 `json:"xs"`
-	Ok       []bool   `json:"ok"`
-	Latest   []bool   `json:"latest"`
+	Kind   string   `json:"kind"`
+	W      int      `json:"w"`
+	MaxSeq uint64   `json:"maxseq"`
+	Xs     []uint64 `json:"xs"`
+	Ok     []bool   `json:"ok"`
+	Latest []bool   `json:"latest"`
 }
 
 // TestVerifC06Unit drives the replay detector exactly as conn.go does (Check, then
@@ -157,13 +157,13 @@ type c06E2ECase struct {
 	Kind      string   `json:"kind"`
 	Variant   string   `json:"variant"`
 	W         int      `json:"w"`
-	Pre       []uint64 `json:"pre"`     // epoch-1 sequence numbers already delivered in the handshake
-	Seqs      []uint64 `json:"seqs"`    // sequence number of captured record i
-	Epochs    []int    `json:"epochs"`  // epoch of captured record i
-	Script    []int    `json:"script"`  // arrival order (indices into captured records)
+	Pre       []uint64 `json:"pre"`       // epoch-1 sequence numbers already delivered in the handshake
+	Seqs      []uint64 `json:"seqs"`      // sequence number of captured record i
+	Epochs    []int    `json:"epochs"`    // epoch of captured record i
+	Script    []int    `json:"script"`    // arrival order (indices into captured records)
 	Delivered []int    `json:"delivered"` // per arrival: index of payload read, or -1
-	Extra     int      `json:"extra"`   // payloads read that match no written payload
-	Emitted   int      `json:"emitted"` // datagrams emitted by the receiver during the script
+	Extra     int      `json:"extra"`     // payloads read that match no written payload
+	Emitted   int      `json:"emitted"`   // datagrams emitted by the receiver during the script
 }
 
 func c06Variant(name string, w int) (*dtlsConfig, *dtlsConfig) {
@@ -408,5 +408,226 @@ func TestVerifC06E2E(t *testing.T) {
 		var res c06E2ECase
 		vBubble(t, func(t *testing.T) { res = runC06Script(t, j.variant, j.w, j.n, j.script) })
 		out.emit(res)
+	}
+}
+
+// ---------------------------------------------------------------- round 2: histories around the steady state
+
+// c06XCase: a history that leaves the steady state of one connection: an export/resume in the middle
+// (kind "resume-replay") or records that overtake the end of the peer's final flight (kind "early").
+type c06XCase struct {
+	Kind     string `json:"kind"`
+	Variant  string `json:"variant"`
+	W        int    `json:"w"`
+	N        int    `json:"n"`        // payloads written by the server
+	Before   []int  `json:"before"`   // payload indices Read returned before the export (resume-replay)
+	Replayed []int  `json:"replayed"` // datagram indices delivered again to the resumed connection
+	After    []int  `json:"after"`    // payload indices Read returned afterwards, in order
+	Extra    int    `json:"extra"`
+	Done     bool   `json:"done"`   // (early) the receiving side completed its handshake
+	Parked   int    `json:"parked"` // (early) records still in Conn.encryptedPackets at the end
+	Notes    string `json:"notes,omitempty"`
+}
+
+func c06Index(payloads [][]byte, got []byte) int {
+	for i, pl := range payloads {
+		if string(pl) == string(got) {
+			return i
+		}
+	}
+
+	return -1
+}
+
+// runC06ResumeReplay: the client receives and reads records 0..k-1, its state is exported and resumed on a
+// new endpoint, and the network delivers the old datagrams again (duplicates) followed by a new record.
+func runC06ResumeReplay(t *testing.T, variant string, w, n, k int) c06XCase {
+	t.Helper()
+	ccfg, scfg := c06Variant(variant, w)
+	lab := vEstablish(t, ccfg, scfg)
+	defer lab.close()
+	res := c06XCase{Kind: "resume-replay", Variant: variant, W: w, N: n}
+	payloads := make([][]byte, n+1)
+	for i := range payloads {
+		payloads[i] = []byte(fmt.Sprintf("payload-%04d", i))
+	}
+	caps := vCapture(lab, "server", payloads[:n])
+	lab.Client.startReader()
+	synctest.Wait()
+	for i := 0; i < k; i++ {
+		lab.Net.deliver("client", "server", caps[i].Data)
+		synctest.Wait()
+	}
+	for _, r := range lab.Client.reads() {
+		res.Before = append(res.Before, c06Index(payloads, r))
+	}
+	st, ok := lab.Client.Conn.ConnectionState()
+	if !ok {
+		res.Notes = "ConnectionState failed"
+
+		return res
+	}
+	raw, err := st.MarshalBinary()
+	if err != nil {
+		t.Fatalf("marshal: %v", err)
+	}
+	_ = lab.Client.EP.Close()
+	synctest.Wait()
+	st2 := &State{}
+	if err := st2.UnmarshalBinary(raw); err != nil {
+		t.Fatalf("unmarshal: %v", err)
+	}
+	ep2 := lab.Net.endpoint("client")
+	ccfg2, _ := c06Variant(variant, w)
+	conn2, err := resumeWithConfig(st2, ep2, vAddr("server"), ccfg2)
+	if err != nil {
+		res.Notes = "resume: " + err.Error()
+
+		return res
+	}
+	old := lab.Client
+	defer func() { _ = old.Conn.Close() }()
+	lab.Client = &vPeer{Name: "client", EP: ep2, Conn: conn2, Done: make(chan struct{})}
+	close(lab.Client.Done)
+	lab.Client.startReader()
+	synctest.Wait()
+	// the network duplicates what it delivered before, then delivers the rest and one new record
+	for i := 0; i < n; i++ {
+		if i < k {
+			res.Replayed = append(res.Replayed, i)
+		}
+		lab.Net.deliver("client", "server", caps[i].Data)
+		synctest.Wait()
+	}
+	fresh := vCapture(lab, "server", payloads[n:])
+	for _, d := range fresh {
+		lab.Net.deliver("client", "server", d.Data)
+		synctest.Wait()
+	}
+	for _, r := range lab.Client.reads() {
+		if i := c06Index(payloads, r); i >= 0 {
+			res.After = append(res.After, i)
+		} else {
+			res.Extra++
+		}
+	}
+
+	return res
+}
+
+// runC06Early: DTLS 1.2 full handshake; the server completes first (it has sent its final flight) and writes
+// n payloads at once; the network delivers those records BEFORE the datagram that carries the server's
+// ChangeCipherSpec and Finished (reordering well inside the window), then one more record.
+func runC06Early(t *testing.T, variant string, w, n int) c06XCase {
+	t.Helper()
+	ccfg, scfg := c06Variant(variant, w)
+	lab := newLab(t, ccfg, scfg)
+	defer lab.close()
+	res := c06XCase{Kind: "early", Variant: variant, W: w, N: n}
+	payloads := make([][]byte, n+1)
+	for i := range payloads {
+		payloads[i] = []byte(fmt.Sprintf("payload-%04d", i))
+	}
+	next := 0
+	var final []vDatagram
+	deadline := time.Now().Add(60 * time.Second)
+	for !lab.Server.handshakeDone() && time.Now().Before(deadline) {
+		synctest.Wait()
+		batch := lab.Net.since(next)
+		if len(batch) == 0 {
+			time.Sleep(50 * time.Millisecond)
+
+			continue
+		}
+		for _, d := range batch {
+			next = d.Idx + 1
+			isFinal := false
+			if d.From == "server" {
+				for _, r := range vParseDatagram(d.Data, 0) {
+					if r.CT == int(protocol.ContentTypeChangeCipherSpec) {
+						isFinal = true
+					}
+				}
+			}
+			if isFinal {
+				final = append(final, d)
+
+				continue
+			}
+			lab.Net.deliver(d.To, d.From, d.Data)
+			synctest.Wait()
+		}
+	}
+	synctest.Wait()
+	for _, d := range lab.Net.since(next) {
+		// the server returns as soon as it has written its final flight: that datagram is still on the wire
+		next = d.Idx + 1
+		if d.From == "server" {
+			final = append(final, d)
+		}
+	}
+	if !lab.Server.handshakeDone() || lab.Server.Err != nil || len(final) == 0 {
+		res.Notes = fmt.Sprintf("setup: server done=%v err=%v final=%d", lab.Server.handshakeDone(), lab.Server.Err, len(final))
+
+		return res
+	}
+	for _, d := range lab.Net.since(next) {
+		next = d.Idx + 1 // nothing else is in flight
+	}
+	early := vCapture(lab, "server", payloads[:n])
+	for _, d := range early {
+		lab.Net.deliver("client", "server", d.Data)
+		synctest.Wait()
+	}
+	for _, d := range final[:1] {
+		lab.Net.deliver("client", "server", d.Data)
+		synctest.Wait()
+	}
+	// virtual time passes (less than a retransmission interval)
+	time.Sleep(100 * time.Millisecond)
+	synctest.Wait()
+	res.Done = lab.Client.handshakeDone() && lab.Client.Err == nil
+	if res.Done {
+		lab.Client.startReader()
+		synctest.Wait()
+		last := vCapture(lab, "server", payloads[n:])
+		for _, d := range last {
+			lab.Net.deliver("client", "server", d.Data)
+			synctest.Wait()
+		}
+		time.Sleep(100 * time.Millisecond)
+		synctest.Wait()
+		for _, r := range lab.Client.reads() {
+			if i := c06Index(payloads, r); i >= 0 {
+				res.After = append(res.After, i)
+			} else {
+				res.Extra++
+			}
+		}
+	}
+	lab.Client.Conn.lock.RLock()
+	res.Parked = len(lab.Client.Conn.encryptedPackets)
+	lab.Client.Conn.lock.RUnlock()
+
+	return res
+}
+
+func TestVerifC06X(t *testing.T) {
+	out := newVOut(t)
+	for _, variant := range []string{"psk-gcm", "psk-cbc", "psk-gcm-cid", "cert-gcm"} {
+		for _, w := range []int{2, 64} {
+			for _, nk := range [][2]int{{1, 1}, {4, 2}, {6, 6}} {
+				nk := nk
+				var c c06XCase
+				vBubble(t, func(t *testing.T) { c = runC06ResumeReplay(t, variant, w, nk[0], nk[1]) })
+				out.emit(c)
+			}
+			for _, n := range []int{1, 2, 3} {
+				n := n
+				var c c06XCase
+				vBubble(t, func(t *testing.T) { c = runC06Early(t, variant, w, n) })
+				out.emit(c)
+			}
+		}
 	}
 }
